@@ -666,3 +666,74 @@ def cl3(P, C):
             ok = bool(first) and f.parent[first[0]] == f.body and f.nodes[f.strip(ts.assign_parts(f, first[0])[1])].get("v") == 1
             stores = {"biatx[0]": 1 if ok else None}
         C.ob("CL-3", nm, "order0-case", ok, f.where(), "order-0 special case stores %s" % stores)
+
+
+def cl6(P, C):
+    C.rule("CL-6", "bspline_deriv (the reference for derivative orders >= 2): the `degree 0 -> 0` base case is reachable only with a derivative "
+           "order >= 1 (either recursion passes order-1 only when order > 1, or an `order == 0 -> bspline` base case dominates it), and both "
+           "recursion branches have the form n*f(i,n-1)/(knots[i+n]-knots[i]) - n*f(i+1,n-1)/(knots[i+n+1]-knots[i+1])", floor=3)
+    f = P.one("bspline_deriv", file_endswith="bspline.cpp")
+    pos = f.node_positions()
+    dom = f.dominators()
+    n_id, o_id = f.params[3]["id"], f.params[4]["id"]
+    at = None
+    zero_ret = None
+    order0 = None
+    for i in f.walk():
+        if f.k(i) != "IfStmt":
+            continue
+        rc = core.rel_canon(f, f.nodes[i]["cond"], vg_atomizer(f))
+        rets = [x for x in f.walk(f.nodes[i]["then"]) if f.k(x) == "ReturnStmt"]
+        if rc == (core.eq_norm(core.Poly.atom("$3")), "==0") and rets:
+            v = f.nodes[f.strip(f.nodes[rets[0]]["value"])]
+            if v.get("v") == 0 or v.get("cv") == 0:
+                zero_ret = i
+        if rc == (core.eq_norm(core.Poly.atom("$4")), "==0") and rets:
+            cal = f.nodes[f.strip(f.nodes[rets[0]]["value"])].get("callee")
+            if cal and cal["name"] == "bspline":
+                order0 = i
+    # recursive calls and the derivative order they pass
+    rec = [i for i, cal in f.calls() if cal and cal["usr"] == f.usr]
+    guarded = True
+    for i in rec:
+        a = f.args(i)
+        p = core.poly(f, a[4], vg_atomizer(f))
+        if p != core.Poly.atom("$4") - core.Poly.const(1):
+            guarded = False
+            continue
+        # control-dependent on order > 1 (i.e. the else branch of order <= 1, or then-branch of order > 1)
+        ok = False
+        for anc in f.ancestors(i):
+            if f.k(anc) == "IfStmt":
+                rc = core.rel_canon(f, f.nodes[anc]["cond"], vg_atomizer(f))
+                inthen = f.nodes[anc]["then"] in [i] + list(f.ancestors(i))
+                le1 = (core.Poly.atom("$4") - core.Poly.const(2), "<0")     # order <= 1
+                gt1 = (core.Poly.const(1) - core.Poly.atom("$4"), "<0")     # order > 1
+                if (rc == le1 and not inthen) or (rc == gt1 and inthen):
+                    ok = True
+        guarded = guarded and ok
+    ok = zero_ret is not None and (guarded or (order0 is not None and _dominates_if(f, order0, zero_ret, pos, dom)))
+    C.ob("CL-6", "bspline_deriv", "base-cases", ok, f.loc(zero_ret) if zero_ret is not None else f.where(),
+         "the degree-0 base case returns 0, which is the derivative of a constant only for derivative orders >= 1: recursion never reaches "
+         "order 0 (%s) or the order-0 base case comes first (%s)" % (guarded, order0 is not None and _dominates_if(f, order0, zero_ret, pos, dom)))
+    # recursion formula: every pair `result = A; result -= B`
+    terms = [f.alpha(i)[0] for i in f.walk() if f.k(i) in ("BinaryOperator", "CompoundAssignOperator") and f.nodes[i]["op"] in ("=", "-=")
+             and f.render(f.nodes[i]["ch"][0]) == "result"]
+    import re as _re
+    pat_a = _re.compile(r"^\(v0 = \(\(\$3 \* (bspline|bspline_deriv)\(\$0, \$1, \$2, \(\$3 - 1\)(, \(\$4 - 1\))?\)\) / \(\$0\[\(\$2 \+ \$3\)\] - \$0\[\$2\]\)\)\)$")
+    pat_b = _re.compile(r"^\(v0 -= \(\(\$3 \* (bspline|bspline_deriv)\(\$0, \$1, \(\$2 \+ 1\), \(\$3 - 1\)(, \(\$4 - 1\))?\)\) / \(\$0\[\(\(\$2 \+ \$3\) \+ 1\)\] - \$0\[\(\$2 \+ 1\)\]\)\)\)$")
+    na = sum(1 for t in terms if pat_a.match(t))
+    nb = sum(1 for t in terms if pat_b.match(t))
+    C.ob("CL-6", "bspline_deriv", "recursion-first-term", na >= 1 and na + nb == len(terms), f.where(), "n*f(i,n-1)/(knots[i+n]-knots[i]): %d of %d statements" % (na, len(terms)))
+    C.ob("CL-6", "bspline_deriv", "recursion-second-term", nb >= 1 and na == nb, f.where(), "minus n*f(i+1,n-1)/(knots[i+n+1]-knots[i+1]): %d" % nb)
+
+
+def vg_atomizer(f):
+    from . import vg
+    return vg.atomizer(f, ())
+
+
+def _dominates_if(f, a, b, pos, dom):
+    ba = next((pos[x][0] for x in f.walk(f.nodes[a]["cond"]) if x in pos), None)
+    bb = next((pos[x][0] for x in f.walk(f.nodes[b]["cond"]) if x in pos), None)
+    return ba is not None and bb is not None and ba in dom[bb] and ba != bb
